@@ -11,6 +11,9 @@
 #include "vtrace.h"
 #include <half.h>
 #include <fenv.h>
+#ifdef SWEEP_DAZ_FTZ
+#include <xmmintrin.h>
+#endif
 
 #ifdef __cplusplus
 using IMATH_INTERNAL_NAMESPACE::half;
@@ -62,6 +65,11 @@ int main (int argc, char** argv)
     const char* cfg = argv[1];
     int k0 = atoi (argv[2]), k1 = atoi (argv[3]);
     const char* nanmode = argc > 4 ? argv[4] : "sw";
+#ifdef SWEEP_DAZ_FTZ
+    /* ... and whatever the thread's denormal handling is (denormals-are-zero / flush-to-zero, as set by code built with
+       -ffast-math): the conversions are integer algorithms and must not pass through FPU arithmetic on denormals */
+    _mm_setcsr (_mm_getcsr () | 0x8040u);
+#endif
 #ifdef SWEEP_FE_UPWARD
     /* the conversions are specified as round-to-nearest-even whatever the thread's current rounding direction is */
     fesetround (FE_UPWARD);
